@@ -37,6 +37,13 @@ M = [
     ("C02-cli-thresholds-dropped", "C02", "cnvlib/commands.py", "        args.filters,\n        args.thresholds,\n    )", "        args.filters,\n    )"),
     ("C02-cli-filters-sorted", "C02", "cnvlib/commands.py", "        args.diploid_parx_genome,\n        args.filters,\n        args.thresholds,", "        args.diploid_parx_genome,\n        sorted(args.filters),\n        args.thresholds,"),
     ("C02-cli-male-ref-dropped", "C02", "cnvlib/commands.py", "        args.purity,\n        args.male_reference,\n        is_sample_female,", "        args.purity,\n        False,\n        is_sample_female,"),
+    ("C03-cli-outliers-dropped", "C03", "cnvlib/commands.py", "        skip_outliers=args.drop_outliers,\n", "", None),
+    ("C04-cli-edge-gc-swapped", "C04", "cnvlib/commands.py", "        args.do_gc,\n        args.do_edge,\n        args.do_rmask,\n        args.cluster,\n        args.smoothing_window_fraction,", "        args.do_edge,\n        args.do_gc,\n        args.do_rmask,\n        args.cluster,\n        args.smoothing_window_fraction,"),
+    ("C12-cli-min-size-dropped", "C12", "cnvlib/commands.py", "antitarget.do_antitarget(targets, access, args.avg_size, args.min_size)", "antitarget.do_antitarget(targets, access, args.avg_size)"),
+    ("C12-cli-split-short-swapped", "C12", "cnvlib/commands.py", "regions, args.annotate, args.short_names, args.split, args.avg_size", "regions, args.annotate, args.split, args.short_names, args.avg_size"),
+    ("C16-cli-drop-low-ignored", "C16", "cnvlib/commands.py", "        args.min_probes,\n        args.drop_low_coverage,\n        args.male_reference,\n        is_sample_female,", "        args.min_probes,\n        False,\n        args.male_reference,\n        is_sample_female,"),
+    ("C17-cli-alpha-default", "C17", "cnvlib/commands.py", "    sig = do_bintest(cnarr, segments, args.alpha, args.target)", "    sig = do_bintest(cnarr, segments, target_only=args.target)"),
+    ("C17-cli-smooth-ignored", "C17", "cnvlib/commands.py", "        args.bootstrap,\n        args.smooth_bootstrap,\n", "        args.bootstrap,\n        False,\n"),
     # ---- C06
     ("C06-merge-abutting", "C06", "skgenome/merge.py", "group_keys = np.r_[False, gap_sizes > (-bp)].cumsum()", "group_keys = np.r_[False, gap_sizes >= (-bp)].cumsum()"),
     ("C06-merge-no-cummax", "C06", "skgenome/merge.py", "    gap_sizes = table.start.values[1:] - table.end.cummax().values[:-1]\n    group_keys",
